@@ -348,11 +348,13 @@ def parse_sim_file(path: Path) -> list[tuple[str, dict[str, Any]]]:
     hdrs = re.findall(r"^\\\* (.*)$", txt, re.M)
     actions = []
     for h in hdrs:
-        m = re.match(r"<(\w+) line", h)
+        m = re.match(r"<(\w+)(?:\(.*\))? line", h)
         if m:
             actions.append(m.group(1))
         elif h.startswith("Initial") or h.startswith("<Initial"):
             actions.append("Init")
+        elif h.startswith("<"):
+            actions.append("?")
     bi = 0
     for b in blocks:
         if not b.startswith("STATE_"):
